@@ -299,6 +299,11 @@ func (ex *Exec) callSpec(fr *Frame, st *State, c *FuncContract, args []*Value, r
 	if site != nil {
 		what = ex.siteWhat(site)
 	}
+	if c.Fn != nil && c.Fn.Signature.Recv() != nil && len(args) > 0 && !c.Extern {
+		if _, ok := c.Fn.Signature.Recv().Type().Underlying().(*types.Pointer); ok && (args[0].P == nil || (args[0].P.Local == nil && len(args[0].P.Path) == 0)) {
+			ex.oblige(st, "nil", what+":receiver", tb.Ne(args[0].C[0], ex.refLit(0)), site, "method call on nil receiver")
+		}
+	}
 	for _, r := range c.Requires {
 		cond := ex.evalSpecBool(env, r.Expr)
 		ex.obligeSpec(st, "pre", what+":"+r.Label, cond, r, site)
@@ -349,6 +354,9 @@ func (ex *Exec) callSpec(fr *Frame, st *State, c *FuncContract, args []*Value, r
 	for _, e := range c.Ensures {
 		cond := ex.evalSpecBool(env, e.Expr)
 		ex.assume(st, cond)
+		if e.Trusted {
+			ex.usedExterns[c.Name+" [trusted postcondition "+e.Label+"]"] = true
+		}
 	}
 	for _, g := range c.Sets {
 		v := ex.evalSpec(env, g.Expr)
@@ -414,14 +422,14 @@ func (ex *Exec) frameOf(fn *ssa.Function) *writeSet {
 // at caller locals.
 func (ex *Exec) havocCalleeWrites(st *State, ws *writeSet, args []*Value, callee *ssa.Function) {
 	if ex.discover != nil {
-		ex.discover.addAll(&writeSet{all: ws.all, heap: ws.heap, locals: map[*ssa.Alloc]bool{}})
+		ex.discover.addAll(&writeSet{all: ws.all, classes: ws.classes, heap: ws.heap, locals: map[*ssa.Alloc]bool{}})
 	}
 	if ws.all {
 		ex.havocAllHeap(st)
 		ex.havocExposedLocals(st, args)
 		return
 	}
-	ex.havocWrites(st, &writeSet{heap: ws.heap, locals: map[*ssa.Alloc]bool{}})
+	ex.havocWrites(st, &writeSet{classes: ws.classes, heap: ws.heap, locals: map[*ssa.Alloc]bool{}})
 	for _, a := range args {
 		ex.havocThroughArg(st, a, ws)
 	}
@@ -488,10 +496,20 @@ func (ex *Exec) applyModifies(env *Env, st *State, m ModTarget) {
 			ex.discover.all = true
 		}
 		ex.havocAllHeap(st)
+	case "foreign", "data":
+		cls := clsForeign
+		if m.Kind == "data" {
+			cls = clsData
+		}
+		if ex.discover != nil {
+			ex.discover.classes[cls] = true
+		}
+		ex.havocClass(st, cls)
 	case "type":
 		t := ex.prog.lookupType(m.Name, env.pkg)
 		if t == nil {
-			panic("modifies: unknown type " + m.Name)
+			// the package declaring the type is not loaded for this run
+			return
 		}
 		comps := ex.L.rootComps(t)
 		for i, c := range comps {
@@ -499,7 +517,7 @@ func (ex *Exec) applyModifies(env *Env, st *State, m ModTarget) {
 				continue
 			}
 			if ex.discover != nil {
-				ex.discover.heap[fmt.Sprintf("%s|%d", typeKey(t), i)] = heapKeyInfo{root: t, comp: i, sort: c.Sort}
+				ex.discover.heap[fmt.Sprintf("%s|%d", typeKey(t), i)] = heapKeyInfo{rootKey: typeKey(t), root: t, comp: i, sort: c.Sort}
 			}
 			ex.havocHeapKey(st, typeKey(t), i, c.Sort)
 		}
@@ -547,7 +565,7 @@ func (ex *Exec) havocSliceContents(st *State, v *Value, u *types.Slice) {
 	for i, c := range ex.L.Backing(u.Elem()) {
 		h := ex.heapMap(st, key, i, c.Sort)
 		if ex.discover != nil {
-			ex.discover.heap[fmt.Sprintf("%s|%d", key, i)] = heapKeyInfo{root: v.T, comp: i, sort: c.Sort}
+			ex.discover.heap[fmt.Sprintf("%s|%d", key, i)] = heapKeyInfo{rootKey: key, root: v.T, comp: i, sort: c.Sort}
 		}
 		ex.setHeapMap(st, key, i, ex.tb.Store(h, v.C[0], ex.tb.Fresh("modbk", c.Sort)))
 	}
@@ -980,7 +998,7 @@ func (ex *Exec) setBackingArray(st *State, s *Value, comp int, arr *Term) {
 	c := ex.L.Backing(rt.(*types.Slice).Elem())[comp]
 	key := typeKey(rt)
 	if ex.discover != nil {
-		ex.discover.heap[fmt.Sprintf("%s|%d", key, comp)] = heapKeyInfo{root: rt, comp: comp, sort: c.Sort}
+		ex.discover.heap[fmt.Sprintf("%s|%d", key, comp)] = heapKeyInfo{rootKey: key, root: rt, comp: comp, sort: c.Sort}
 	}
 	h := ex.heapMap(st, key, comp, c.Sort)
 	ex.setHeapMap(st, key, comp, ex.tb.Store(h, s.C[0], arr))
@@ -1370,13 +1388,13 @@ func (ex *Exec) mapStore(st *State, m *Value, k *Value, v *Value) {
 	hs := ArrOf(SBool)
 	h := ex.heapMap(st, key, 0, hs)
 	if ex.discover != nil {
-		ex.discover.heap[key+"|0"] = heapKeyInfo{root: nil, comp: 0, sort: hs}
+		ex.discover.heap[key+"|0"] = heapKeyInfo{rootKey: key, comp: 0, sort: hs}
 	}
 	ex.setHeapMap(st, key, 0, tb.Store(h, m.C[0], tb.Store(tb.Select(h, m.C[0]), kt, tb.True)))
 	for i, c := range ex.L.Of(mt.Elem()).Comps {
 		hv := ex.heapMap(st, key, i+1, ArrOf(c.Sort))
 		if ex.discover != nil {
-			ex.discover.heap[fmt.Sprintf("%s|%d", key, i+1)] = heapKeyInfo{root: nil, comp: i + 1, sort: ArrOf(c.Sort)}
+			ex.discover.heap[fmt.Sprintf("%s|%d", key, i+1)] = heapKeyInfo{rootKey: key, comp: i + 1, sort: ArrOf(c.Sort)}
 		}
 		ex.setHeapMap(st, key, i+1, tb.Store(hv, m.C[0], tb.Store(tb.Select(hv, m.C[0]), kt, v.C[i])))
 	}
@@ -1389,7 +1407,7 @@ func (ex *Exec) mapDelete(st *State, m *Value, k *Value) {
 	hs := ArrOf(SBool)
 	h := ex.heapMap(st, key, 0, hs)
 	if ex.discover != nil {
-		ex.discover.heap[key+"|0"] = heapKeyInfo{root: nil, comp: 0, sort: hs}
+		ex.discover.heap[key+"|0"] = heapKeyInfo{rootKey: key, comp: 0, sort: hs}
 	}
 	ex.setHeapMap(st, key, 0, tb.Store(h, m.C[0], tb.Store(tb.Select(h, m.C[0]), kt, tb.False)))
 }
